@@ -33,16 +33,53 @@ import (
 	"strings"
 )
 
-var srcFiles = []string{"vm_callback.go", "vm.go", "vm_state.go", "internal_operations.go"}
+// every non-test Go file of package contract is parsed (any build tag: a file that is compiled on some
+// platform only is still read); the sqlite driver binding files are not part of the host API
+func srcFiles(repo string) []string {
+	ents, err := os.ReadDir(filepath.Join(repo, "contract"))
+	if err != nil {
+		fmt.Fprintln(os.Stderr, err)
+		os.Exit(1)
+	}
+	var l []string
+	for _, e := range ents {
+		n := e.Name()
+		if !strings.HasSuffix(n, ".go") || strings.HasSuffix(n, "_test.go") || strings.HasPrefix(n, "sqlite3") {
+			continue
+		}
+		l = append(l, n)
+	}
+	sort.Strings(l)
+	return l
+}
 
 // mutator -> kind
 var mutators = map[string]string{
 	"SetData": "KAny", "DeleteData": "KAny", "SetCode": "KAny", "SetRawKV": "KAny", "AddBalance": "KAny", "SubBalance": "KAny",
 	"SendBalance": "KAny", "PutState": "KAny", "SetNonce": "KAny", "StageContractState": "KAny", "CreateAccountState": "KAny",
 	"ExecuteSystemTx": "KAny", "ExecuteNameTx": "KAny", "ExecuteEnterpriseTx": "KAny", "SetStorageRoot": "KAny",
-	"SetCodeHash": "KAny", "SetRedeploy": "KAny", "beginTx": "KQ",
+	"SetCodeHash": "KAny", "SetRedeploy": "KAny", "SetRP": "KAny", "Reset": "KAny", "beginTx": "KQ",
 }
-var restore = map[string]bool{"revertState": true, "clearRecoveryPoint": true}
+// restore operations and reviewed read-only SQL helpers of statesql.go: translated to Skip, not traversed
+var restore = map[string]bool{"revertState": true, "clearRecoveryPoint": true,
+	"rollbackToRecoveryPoint": true, // pragma branch_truncate: undoes SQL effects recorded earlier in the same execution
+	"snapshotView": true,            // pragma branch=master.<rp> on a _query_only connection: selects what is read
+}
+
+// external callees (not functions of the package) whose name starts with a state-changing verb: each must
+// be classified in coq/VmGuard/Reviewed.v (mutator / restore / pure), else the obligation fails
+var verbs = []string{"Set", "Put", "Delete", "Del", "Add", "Sub", "Send", "Stage", "Create", "Remove", "Update", "Commit",
+	"Rollback", "Reset", "Write", "Save", "Store", "Exec", "Begin", "Open", "Insert", "Push", "Append", "Clear", "Revert", "Restore", "Mint", "Burn"}
+var verbCallees = map[string]bool{}
+
+func verbNamed(n string) bool {
+	for _, v := range verbs {
+		if strings.HasPrefix(n, v) || strings.HasPrefix(n, strings.ToLower(v)) {
+			return true
+		}
+	}
+	return false
+}
 
 type gen struct {
 	fset  *token.FileSet
@@ -57,7 +94,7 @@ func main() {
 	}
 	g := &gen{fset: token.NewFileSet(), funcs: map[string]*ast.FuncDecl{}, byBare: map[string][]string{}}
 	var exported []string
-	for _, f := range srcFiles {
+	for _, f := range srcFiles(os.Args[1]) {
 		af, err := parser.ParseFile(g.fset, filepath.Join(os.Args[1], "contract", f), nil, parser.ParseComments)
 		if err != nil {
 			fmt.Fprintln(os.Stderr, "parse:", err)
@@ -74,7 +111,7 @@ func main() {
 			}
 			g.funcs[name] = fd
 			g.byBare[fd.Name.Name] = append(g.byBare[fd.Name.Name], name)
-			if fd.Doc != nil && f == "vm_callback.go" {
+			if fd.Doc != nil {
 				for _, c := range fd.Doc.List {
 					if strings.HasPrefix(c.Text, "//export ") {
 						exported = append(exported, name)
@@ -123,6 +160,34 @@ func main() {
 	for i, n := range exported {
 		sep := ";"
 		if i == len(exported)-1 {
+			sep = ""
+		}
+		fmt.Fprintf(&b, "  %q%s\n", n, sep)
+	}
+	b.WriteString("].\n\nDefinition translator_mutators : list string := [\n")
+	var mn []string
+	for n := range mutators {
+		mn = append(mn, n)
+	}
+	mn = append(mn, "ctx.events=append")
+	sort.Strings(mn)
+	for i, n := range mn {
+		sep := ";"
+		if i == len(mn)-1 {
+			sep = ""
+		}
+		fmt.Fprintf(&b, "  %q%s\n", n, sep)
+	}
+	b.WriteString("].\n\nDefinition translator_restore : list string := [\"clearRecoveryPoint\"; \"revertState\"; \"rollbackToRecoveryPoint\"; \"snapshotView\"].\n")
+	b.WriteString("\nDefinition verb_callees : list string := [\n")
+	var vc []string
+	for n := range verbCallees {
+		vc = append(vc, n)
+	}
+	sort.Strings(vc)
+	for i, n := range vc {
+		sep := ";"
+		if i == len(vc)-1 {
 			sep = ""
 		}
 		fmt.Fprintf(&b, "  %q%s\n", n, sep)
@@ -212,6 +277,27 @@ func (g *gen) exprs(n ast.Node, callees *[]string) string {
 		case *ast.FuncLit:
 			parts = append(parts, "(Defer "+g.block(e.Body.List, callees)+")")
 			return false
+		case *ast.SelectorExpr:
+			// a method value x.SetData used without being called here (assigned, passed): it may be called later
+			if k, ok := mutators[e.Sel.Name]; ok {
+				parts = append(parts, fmt.Sprintf("(Mut %q %s)", e.Sel.Name, k))
+			} else if !restore[e.Sel.Name] {
+				for _, t := range g.byBare[e.Sel.Name] {
+					if strings.Contains(t, ".") {
+						*callees = append(*callees, t)
+						parts = append(parts, fmt.Sprintf("(If CUnknown (Call %q) Skip)", t))
+					}
+				}
+			}
+			parts = append(parts, g.exprs(e.X, callees)) // not the selector identifier itself
+			return false
+		case *ast.Ident:
+			// a package function used as a value
+			if fd, ok := g.funcs[e.Name]; ok && fd.Recv == nil && e.Obj == nil {
+				*callees = append(*callees, e.Name)
+				parts = append(parts, fmt.Sprintf("(If CUnknown (Call %q) Skip)", e.Name))
+			}
+			return false
 		case *ast.CallExpr:
 			// arguments first
 			for _, a := range e.Args {
@@ -251,9 +337,11 @@ func (g *gen) call(e *ast.CallExpr, callees *[]string) string {
 		return "Return"
 	}
 	if k, ok := mutators[name]; ok {
+		verbCallees[name] = true
 		return fmt.Sprintf("(Mut %q %s)", name, k)
 	}
 	if restore[name] {
+		verbCallees[name] = true
 		return "Skip"
 	}
 	if isSel && name == "call" {
@@ -274,6 +362,9 @@ func (g *gen) call(e *ast.CallExpr, callees *[]string) string {
 		}
 	}
 	if len(targets) == 0 {
+		if verbNamed(name) {
+			verbCallees[name] = true
+		}
 		return "Skip"
 	}
 	sort.Strings(targets)
